@@ -27,6 +27,7 @@
 //! injected *after* it was applied (before the call returns) counts as applied; both are generated.
 
 mod agent;
+mod mini;
 mod store;
 
 use agent::{m1_key, make_agent, Act, PEv, Shared, Snap, K};
@@ -318,6 +319,9 @@ fn build_case(mut params: SimParams, cascade: bool, gs: Vec<G>, gs2: Vec<G>, pla
     if gs.iter().chain(gs2.iter()).any(|g| matches!(g, G::Window { .. })) {
         params.inactive_timeout_ms = 300;
         params.attachment_queue = params.attachment_queue.min(2);
+        if params.budget > 3 {
+            params.budget = 2 + (params.seed & 1) as usize;
+        }
     }
     let mut programs: Vec<Vec<Act>> = vec![];
     let mut convert = |gs: Vec<G>, ops: &mut Vec<Op>| {
@@ -352,12 +356,27 @@ fn build_case(mut params: SimParams, cascade: bool, gs: Vec<G>, gs2: Vec<G>, pla
                         } else {
                             Act::Upd { map: lane - 3, k, v: fresh() }
                         };
-                        let late = 298 + (d % 5) + sets as u64;
-                        programs.push(vec![Act::Later { ms: late, act: Box::new(act) }]);
+                        // t_c = now: the control command (read activity) and its echo event (write activity)
+                        // restart both timers; read-only traffic d0 ms later makes the read task's timer the
+                        // last one; the agent's own change is due at the same instant as the read task's vote
+                        let d0 = 1 + (a % 40);
+                        programs.push(vec![Act::Later { ms: 300 + d0, act: Box::new(act) }]);
                         ops.push(Op::Cmd { r, lane: CTL, body: (programs.len() - 1).to_string() });
                         ops.push(Op::Pump { r, n: usize::MAX });
                         ops.push(Op::Settle);
-                        ops.push(Op::Advance { ms: 300 + (d % 7) });
+                        ops.push(Op::Advance { ms: d0 });
+                        ops.push(Op::Cmd { r, lane: 7, body: "0".to_string() });
+                        ops.push(Op::Pump { r, n: usize::MAX });
+                        ops.push(Op::Poll { k: 3 });
+                        // the write and HTTP tasks vote
+                        ops.push(Op::Advance { ms: 300 - d0 });
+                        ops.push(Op::Poll { k: 4 });
+                        // registrations that occupy the write task's small message queue
+                        for i in 0..(k as usize % 4) {
+                            ops.push(Op::Attach { in_cap: 8, out_cap: [1usize, 8, 64][i % 3] });
+                        }
+                        // the read task votes (unanimous) and the agent changes the lane
+                        ops.push(Op::Advance { ms: d0 + (d % 3) });
                     } else {
                         // variant B: traffic that only the read task sees (lane 7 does not exist), the
                         // write and HTTP tasks vote, then a set and a command that stops the agent
@@ -366,6 +385,12 @@ fn build_case(mut params: SimParams, cascade: bool, gs: Vec<G>, gs2: Vec<G>, pla
                         ops.push(Op::Poll { k: 3 });
                         ops.push(Op::Advance { ms: 300 - a + d });
                         ops.push(Op::Poll { k: 4 });
+                        // remote registrations occupy the write task's small message queue, so that the
+                        // `Stop` that follows the agent's end reaches the read task first (its voter goes
+                        // away = vote) while the write task still finds the lane event before `Stop`
+                        for i in 0..(k as usize % 4) {
+                            ops.push(Op::Attach { in_cap: 8, out_cap: [1usize, 8, 64][i % 3] });
+                        }
                         for _ in 0..sets {
                             ops.push(Op::Cmd { r, lane, body: set_body(&mut fresh) });
                         }
@@ -1630,5 +1655,9 @@ fn main() {
     ctx.prop("sampled-cuts", n_sampled, move || arb_case(max_ops, 6, false), check);
     let n_all = (ctx.pick(600u64, 60_000) * scale / 100).max(16);
     ctx.prop("all-cuts", n_all, move || arb_case(max_ops, 0, true), check);
+    // minimal agent (one value lane + one value store: their runtime item ids coincide), value alphabet {1,2,3}
+    let n_twin = (ctx.pick(40_000u64, 1_000_000) * scale / 100).max(16);
+    let twin_ops = ctx.pick(30, 50);
+    ctx.prop("twin-items", n_twin, move || mini::arb_mini(twin_ops), mini::check);
     ctx.finish();
 }
